@@ -22,7 +22,7 @@ def nlist(s):
     return "[" + "; ".join(f"{int(x)}%nat" for x in s) + "]"
 
 
-HEADER = """From Verif Require Import NdIndex Quat RotArr SymDot KField GroupK Groups SymDotK KFloat ITARef.
+HEADER = """From Verif Require Import NdIndex NdTranspose Quat RotArr SymDot DotOuter KField GroupK Groups SymDotK KFloat ITARef.
 Open Scope float_scope.
 Inductive case :=
 | Cdot (U : list (rot (T:=float))) (o1 o2 : quat (T:=float)) (out : float)
@@ -33,20 +33,8 @@ Inductive case :=
 Definition gfind (n : String.string) : list krot :=
   match find (fun g => String.eqb (g_name g) n) groups with Some g => g_elems g | None => [] end.
 Definition fsubset (A B : list (rot (T:=float))) : bool := forallb (fun a => existsb (r_close_pm a) B) A.
-(* Orientation.dot_outer as the code has it: M = other.outer(~self) (shape sb ++ sa), max over U,
-   then transpose with order = range(nb, nb+na) ++ range(nb)   (na = self.ndim, nb = other.ndim) *)
-Definition perm_code (na nb : nat) : list nat := seq nb na ++ seq 0 nb.
-Definition transpose_nd {X} (d : X) (perm s : list nat) (l : list X) : list nat * list X :=
-  let s' := map (fun k => nth k s 0%nat) perm in
-  (s', map (fun k' => let idx' := unravel s' k' in
-                      (* input index: idx[perm[k]] = idx'[k] *)
-                      let idx := map (fun ax => nth (List.length (filter (fun p => negb (Nat.eqb p ax)) (firstn 0 perm))) idx' 0%nat) (seq 0 (List.length s)) in
-                      let idx := map (fun ax => match find (fun kp => Nat.eqb (snd kp) ax) (combine (seq 0 (List.length perm)) perm) with
-                                                | Some (k, _) => nth k idx' 0%nat | None => 0%nat end) (seq 0 (List.length s)) in
-                      nth (ravel s idx) l d) (seq 0 (size s'))).
-Definition dot_outer_model U A B sa sb : list nat * list float :=
-  let inner := outer (fun b a => code_dot FOps U a b) B A in      (* shape sb ++ sa *)
-  transpose_nd 0 (perm_code (List.length sa) (List.length sb)) (sb ++ sa) inner.
+(* Orientation.dot_outer: Model/DotOuter.dot_outer_model (the object of C04_dot_outer_layout) on binary64 *)
+Definition dot_outer_model := DotOuter.dot_outer_model FOps.
 Definition ok (c : case) : bool :=
   match c with
   | Cdot U o1 o2 out => fclose (code_dot FOps U o1 o2) out
@@ -98,7 +86,7 @@ def run(tier, seed):
                        "numeric maximum-disorientation constants per group are checked by the oracle only"]
     if not ck.step_sanity():
         return ck.finish()
-    ck.step_prove(["groups", "quatkernels", "conversions"], "Props/C04.v", extra=["Model/SymDot.vo", "Model/RotArr.vo", "Model/KFloat.vo", "Proofs/SymDotK.vo", "Model/ITARef.vo"])
+    ck.step_prove(["groups", "quatkernels", "conversions"], "Props/C04.v", extra=["Model/SymDot.vo", "Model/DotOuter.vo", "Model/RotArr.vo", "Model/KFloat.vo", "Proofs/SymDotK.vo", "Model/ITARef.vo"])
     out = run_impl("c04.py", {"seed": seed, "n": 40 if tier == "quick" else 200, "thorough": tier != "quick"},
                    timeout=3000)
     cases = out["cases"]
